@@ -302,6 +302,34 @@ class SymDim(Dimension):
     def _sympystr(self, p):
         return f"SymDim({self.name})"
 
+    # Python-level (in)equality of Dimension objects is STRUCTURAL in SymPy: equivalent dimensions spelled differently
+    # (energy vs mass*length**2/time**2) are unequal.  Here: == needs equal exponent vectors AND the same spelling, and whether
+    # two distinct symbolic dimensions are spelled alike is a free Boolean (a fork): code that compares dimensions with ==/!=
+    # instead of dimsys_SI.equivalent_dims then has a path "equivalent, yet unequal"; the replay realises it by respelling one leaf.
+    def _struct_eq(self, other):
+        if self is other or (isinstance(other, SymDim) and other.name == self.name):
+            return True
+        if not isinstance(other, Dimension):
+            return False
+        ses = Session.current
+        if ses is None or ses.run is None:
+            return False
+        try:
+            if not bool(SymBool(z3.And([a == b for a, b in zip(self.vec, to_vec(other))]))):
+                return False
+        except LiftUnsupported:
+            return False
+        key = "~".join(sorted([str(self.name), str(getattr(other, "name", other))]))
+        return bool(SymBool(z3.Bool("samespelling_" + key)))
+
+    def __eq__(self, other):
+        return self._struct_eq(other)
+
+    def __ne__(self, other):
+        return not self._struct_eq(other)
+
+    __hash__ = Dimension.__hash__
+
 
 def to_vec(d):
     """exponent vector (8 z3 terms) of a concrete or symbolic Dimension"""
@@ -421,10 +449,25 @@ def lifted_is_number(orig):
 def lifted_complex(value=0, *a):
     try:
         v = sp.sympify(value)
-        if isinstance(v, sp.Basic) and v.free_symbols and only_vs(v):
-            return SymNumber(v)
     except Exception:
-        pass
+        return complex(value, *a)
+    if isinstance(v, sp.Basic) and v.free_symbols and only_vs(v):
+        return SymNumber(v)
+    if isinstance(v, sp.Basic) and v.free_symbols and any(isinstance(s, VS) for s in v.free_symbols):
+        # verification scalars mixed with a foreign (free) symbol: for concrete magnitudes SymPy would have folded the expression
+        # (0 * x -> 0), so complex() succeeds exactly when every coefficient of the foreign symbols vanishes: fork on that
+        foreign = sorted((s for s in v.free_symbols if not isinstance(s, VS)), key=str)
+        try:
+            poly = sp.Poly(sp.expand(v), *foreign)
+        except Exception:
+            return complex(value, *a)
+        const = sp.S.Zero
+        for monom, coeff in poly.terms():
+            if all(m == 0 for m in monom):
+                const = coeff
+            elif not bool(SymBool(S().z(coeff) == 0)):
+                raise TypeError("Cannot convert expression to complex")
+        return SymNumber(const)
     return complex(value, *a)
 
 
@@ -433,6 +476,20 @@ class SymNumber:
 
     def __init__(self, expr):
         self.expr = sp.sympify(expr)
+
+    def _part(self, k):
+        e = self.expr
+        parts = sp.expand_complex(e).as_real_imag() if e.has(sp.I) else (e, sp.S.Zero)
+        x = parts[k]
+        return SymFloat(S().z(x), x)
+
+    @property
+    def real(self):
+        return self._part(0)
+
+    @property
+    def imag(self):
+        return self._part(1)
 
 
 def lifted_float(value=0):
@@ -480,6 +537,16 @@ class SymFloat:
     def __neg__(self): return SymFloat(-self.t)
     def __pos__(self): return self
     def __abs__(self): return SymFloat(z3.If(self.t >= 0, self.t, -self.t))
+
+    def __bool__(self):
+        # truthiness of a number (`x or default`): non-zero
+        return bool(SymBool(self.t != 0))
+
+    def __round__(self, ndigits=None):
+        # round to ndigits decimals: nearest multiple of 10**-ndigits (ties upward; Python's ties-to-even differs on a null set)
+        k = z3.RealVal(10 ** int(ndigits or 0))
+        return SymFloat(z3.ToReal(z3.ToInt(self.t * k + z3.RealVal("1/2"))) / k)
+
     def __lt__(self, o): return SymBool(self.t < SymFloat.lift(o))
     def __le__(self, o): return SymBool(self.t <= SymFloat.lift(o))
     def __gt__(self, o): return SymBool(self.t > SymFloat.lift(o))
